@@ -3,6 +3,7 @@ package props
 import (
 	"fmt"
 	"go/token"
+	"go/types"
 	"strings"
 
 	"golang.org/x/tools/go/ssa"
@@ -49,9 +50,15 @@ func c18(r *Report) {
 	deny := []string{"net", "os", "database/sql", "gorm.io/", "github.com/nuts-foundation/go-stoabs", "math/rand", "crypto/rand", ModPath + "/storage", ModPath + "/http"}
 	for _, m := range []string{"didjwk", "didkey"} {
 		fn := p.Func("vdr/"+m, "Resolver", "Resolve")
-		r.Effect(EffectSpec{ID: "C18.pure." + m, Fn: fn, Deny: deny, DenyF: []string{"time.Now"}, What: "did:" + strings.TrimPrefix(m, "did") + " resolution is a pure function of the identifier"})
+		r.Effect(EffectSpec{ID: "C18.pure." + m, Fn: fn, Deny: deny, DenyF: []string{"time.Now", "crypto/ed25519.GenerateKey", "crypto/ecdsa.GenerateKey", "crypto/rsa.GenerateKey", "crypto/ecdh.(Curve).GenerateKey", "crypto/elliptic.GenerateKey"}, What: "did:" + strings.TrimPrefix(m, "did") + " resolution is a pure function of the identifier"})
 		c18IDStored(r, "C18.id-bound."+m, fn)
 	}
+	// the private-key detector: "no private key" only when the raw key equals the raw public key
+	rpk := p.Func("vdr/didjwk", "", "rawPrivateKeyOf")
+	r.Gate(Gate{ID: "C18.jwk.private-detector", Fn: rpk, Effect: InstrEffect("return nil, nil (no private key)", func(in ssa.Instruction) bool {
+		ret, ok := in.(*ssa.Return)
+		return ok && len(ret.Results) == 2 && IsNilConst(Unspill(ret.Results[0])) && IsNilConst(Unspill(ret.Results[1]))
+	}), Check: CallCheck(Fn("std:reflect", "", "DeepEqual"), -1, IsTrue)})
 	jw := p.Func("vdr/didjwk", "Resolver", "Resolve")
 	r.Gate(Gate{ID: "C18.jwk.no-private-key", Fn: jw, Effect: ok, Check: CmpCheck("rawPrivateKey == nil", token.EQL, CallV(Fn("vdr/didjwk", "", "rawPrivateKeyOf"), 0), NilV(), true)})
 	r.Gate(Gate{ID: "C18.jwk.method", Fn: jw, Effect: ok, Check: CmpCheck("id.Method == \"jwk\"", token.EQL, PathV("id.Method"), StrV("jwk"), true)})
@@ -76,6 +83,50 @@ func c18(r *Report) {
 	r.Gate(Gate{ID: "C18.deactivated.subject-store", Fn: sr, Effect: ok, Check: CallCheck(Fn("vdr/resolver", "", "IsDeactivated"), -1, IsFalse),
 		Alt: []Check{Check{Desc: "metadata.AllowDeactivated", Pass: IsTrue, Values: fieldLoads("ResolveMetadata", "AllowDeactivated")}}})
 	c18NutsDeactivated(r)
+	// "the latest, non-deactivated version is requested" is false only for explicit metadata
+	r.Gate(Gate{ID: "C18.deactivated.nuts-store.nil-metadata-means-latest", Fn: p.Func("vdr/didnuts/didstore", "", "latestNonDeactivatedRequested"), Effect: ReturnsConstBoolVal(0, false),
+		Check: CmpCheck("resolveMetadata == nil is false", token.EQL, ParamV("resolveMetadata"), NilV(), false)})
+	c18SchemeNeverRewritten(r)
+	r.ArgIs("C18.url.ip-test-on-hostname", p.Func("vdr/didweb", "", "DIDToURL"), Fn("std:net", "", "ParseIP"), 0, CallV(Fn("std:net/url", "URL", "Hostname"), -1), 1)
+}
+
+// c18SchemeNeverRewritten: in vdr/didweb no url.URL.Scheme is ever assigned anything but the constant "https"
+// (the URL derived from the DID is https by construction in DIDToURL; nothing downgrades it before the request).
+func c18SchemeNeverRewritten(r *Report) {
+	p := r.P
+	rule := "OWN: in vdr/didweb a URL's Scheme is only ever assigned the constant \"https\""
+	key := "C18.web.scheme-never-rewritten"
+	n := 0
+	p.EachInstr(func(fn *ssa.Function, in ssa.Instruction) {
+		if fn.Pkg == nil || fn.Pkg.Pkg.Path() != ModPath+"/vdr/didweb" || p.FileClass(p.FuncPos(fn)) != "prod" {
+			return
+		}
+		st, ok := in.(*ssa.Store)
+		if !ok {
+			return
+		}
+		fa, ok := st.Addr.(*ssa.FieldAddr)
+		if !ok {
+			return
+		}
+		t := fa.X.Type()
+		if pt, ok := t.Underlying().(*types.Pointer); ok {
+			t = pt.Elem()
+		}
+		nt, ok := t.(*types.Named)
+		if !ok || nt.Obj().Pkg() == nil || nt.Obj().Pkg().Path() != "net/url" || nt.Obj().Name() != "URL" {
+			return
+		}
+		if nt.Underlying().(*types.Struct).Field(fa.Field).Name() != "Scheme" {
+			return
+		}
+		n++
+		if s, ok := ConstString(st.Val); !ok || s != "https" {
+			r.Bad(key+" @ "+p.FuncName(fn), rule, p.Pos(st.Pos()), "Scheme is assigned "+AccessPath(st.Val, 0))
+		}
+	})
+	r.Sites += n
+	r.OK(key, rule, "", fmt.Sprintf("%d assignment(s) of URL.Scheme in vdr/didweb, all \"https\"", n), n > 0)
 }
 
 func c18ContentTypes(r *Report, wr *ssa.Function) {
